@@ -50,7 +50,7 @@ CFG = {
                   "Round 3: textinput_models_agree (+_inv): the model over merging graphemes run with the never-merging segmentation on single-atom content IS the merge-free model, "
                   "event by event, panic for panic, and (textinput_models_agree_run) over all histories - the two textinput models are one; the scrolled case of textinput.Draw for EVERY window width: textinput_cells_scrolled (the cells are the "
                   "prompt then the window of the text from the final offset on, left truncator iff offset > 0, right truncator at the grapheme that reaches the edge and nothing after it, mask in "
-                  "password mode) and textinput_cursor_scrolled (cursor column in closed form); textinput_cursor_at_grapheme_partial says exactly when the drawn cursor is at its grapheme, "
+                  "password mode) and textinput_cursor_scrolled (cursor column in closed form); textinput_cursor_at_grapheme_partial says exactly when the drawn cursor is at its grapheme, textinput_cursor_at_grapheme_wide that it always is when graphemes are at most 2 wide and more than 6 columns follow the prompt, "
                   "Witness.F517 that it is not always (narrow windows: drawn at the prompt's end) - observed on the real code, outside the property text ('while the text fits'), recorded not repaired.",
     "level_note": "Validated by correspondence only: that Key.String()/Key.Matches produce the strings/verdicts the tables list (C09's subject); that "
                   "uniseg is a Segmentation and equals the driver's clUax (compared on every op); which offset Draw settles on when the line does NOT fit (the scroll policy: modelled in draw/scrollLoop, compared cell by cell; theorems say what is "
